@@ -80,7 +80,7 @@ def run(ctx):
     wd = ctx.workdir
     inputs = [("text", coders.rand_data(rng, 150000, "text")), ("rand", coders.rand_data(rng, 90000, "rand")),
               ("empty", b""), ("small", coders.rand_data(rng, 700, "text")), ("zeros", bytes(120000))]
-    nseeds = 3 if ctx.quick else 10
+    nseeds = 4 if ctx.quick else 12
     groups = []; jobs = []
     for ii, (iname, data) in enumerate(inputs):
         path = os.path.join(wd, iname + ".in"); open(path, "wb").write(data)
@@ -99,7 +99,7 @@ def run(ctx):
                     acts.sort(key=lambda a: a[1])
                     acts = [a for i, a in enumerate(acts) if i == 0 or a[1] != acts[i - 1][1]]
                 seed = ctx.seed * 1000 + 31 * len(jobs) + k
-                endafter = rng.randint(1, 8) if (k % 3 == 2) else -1
+                endafter = rng.randint(1, 8) if (k % 3 == 2 or k == 3) else -1
                 p = dict(threads=nw, blocksize=bs, timeout=to, seed=seed, perturb=[0, 30, 60][k % 3],
                          slicing=1 if k else 0, endafter=endafter, actions=",".join("%s%d" % a for a in acts))
                 jobs.append((g, p, acts))
